@@ -26,6 +26,7 @@ type hbScript struct {
 	sendAt  int   // an application Send at this instant (0 = none)
 	msgAt   []int // the client submits an ordinary message at these instants (no heartbeat meaning)
 	upgradeFirst bool // the (polling) session is upgraded to websocket by a conformant client at t=0, before the grid starts
+	upgradeAt    int  // >0: a conformant client upgrades the (polling, revision 4) session at this instant, mid-interval, no ping outstanding
 }
 
 func (h hbScript) id() string {
@@ -35,6 +36,9 @@ func (h hbScript) id() string {
 	}
 	if h.upgradeFirst {
 		m += " upgraded@0"
+	}
+	if h.upgradeAt > 0 {
+		m += fmt.Sprintf(" upgraded@%d", h.upgradeAt)
 	}
 	if h.v3 {
 		return fmt.Sprintf("%s v3 I=%d T=%d pings@%v%s", h.kind, h.I, h.T, h.v3pings, m)
@@ -244,9 +248,53 @@ func hbBody(h hbScript) vsched.Body {
 			}
 		}
 		// reader: keeps a poll pending / reads frames, hands packets to onPkt
+		paused, idle := false, false
+		startWSReader := func(ws *WSClient) {
+			vsched.GoNamed("reader", func() {
+				seen := 0
+				p := ws.pipe()
+				for i := 0; i < 400; i++ {
+					vsched.WaitFor(pipeObj(p), "reader", func() bool { return len(p.toCli) > p.cliRead || p.srvClosed })
+					pk, _ := ws.Pkts()
+					for _, q := range pk[seen:] {
+						if q.Type == '3' && string(q.Data) == "probe" {
+							continue
+						}
+						onPkt(q)
+					}
+					seen = len(pk)
+					if p.srvClosed {
+						return
+					}
+				}
+			})
+		}
+		if h.upgradeAt > 0 && s.pc != nil {
+			at := time.Duration(h.upgradeAt) * hbUnit
+			pc := s.pc
+			vsched.GoNamed("upgrader", func() {
+				vsched.SleepUntil(at)
+				c := dialCandidate(w, "websocket", pc.Sid)
+				if !c.waitOpen() {
+					x.Fail("setup: upgrade candidate refused (%s)", h.id())
+					return
+				}
+				c.send(Pkt{Type: '2', Data: []byte("probe")})
+				if !c.waitPong() {
+					// (the probe can be lost before the server listens: the events-before-listeners finding)
+					return
+				}
+				paused = true
+				vsched.WaitFor(0, "polling-paused", func() bool { return idle })
+				s.ws, s.pc = c.ws, nil
+				c.send(Pkt{Type: '5'})
+				startWSReader(c.ws)
+			})
+		}
 		if s.pc != nil {
 			vsched.GoNamed("reader", func() {
-				for i := 0; i < 100; i++ {
+				defer func() { idle = true }()
+				for i := 0; i < 100 && !paused; i++ {
 					r := s.pc.Get()
 					r.Wait()
 					if r.Code != 200 {
@@ -396,6 +444,9 @@ func init() {
 					out = append(out, hbScript{I: I, T: T, kind: kind, v3: true, v3pings: []int{1, I + T}, upgradeFirst: true})
 					out = append(out, hbScript{I: I, T: T, kind: kind, delays: []int{0, -1}, upgradeFirst: true})
 					out = append(out, hbScript{I: I, T: T, kind: kind, delays: []int{-1}, upgradeFirst: true})
+					// upgraded in the middle of an interval, no ping outstanding: the ping schedule is unchanged
+					out = append(out, hbScript{I: I, T: T, kind: kind, delays: []int{0, -1}, upgradeAt: 1})
+					out = append(out, hbScript{I: I, T: T, kind: kind, delays: []int{-1}, upgradeAt: 1})
 				}
 				// ordinary client traffic does not count as a heartbeat
 				out = append(out, hbScript{I: I, T: T, kind: kind, v3: true, v3pings: []int{1}, msgAt: []int{2}})
